@@ -75,7 +75,8 @@ def main():
   # demo scripts mention the agent's own worktree path: run on a copy that
   # points at our scratch VM instead
   text = open(os.path.join(dst, demo)).read().replace(f"/tmp/mut/{args.prop}", vm)
-  demo_run = os.path.join(vm, "MUTDEMO_" + demo)
+  os.makedirs(os.path.join(vm, "MUTANTS", args.m), exist_ok=True)
+  demo_run = os.path.join(vm, "MUTANTS", args.m, demo)
   open(demo_run, "w").write(text)
   run_demo[-1] = demo_run
   cxx = any(l.startswith("+++ b/pytype/typegraph/") and l.strip().endswith((".cc", ".h"))
@@ -103,7 +104,7 @@ def main():
     sh(["git", "apply", "-R", patch], cwd=vm)
     if cxx:
       rebuild(vm)
-    os.unlink(demo_run)
+    shutil.rmtree(os.path.join(vm, "MUTANTS"), ignore_errors=True)
   confirmed = rc0 == 0 and rct == 0 and rc1 != 0
   meta["confirmed"] = confirmed
   # detection by the registered checks, on /repo itself
